@@ -7,21 +7,21 @@ claimed = {
  "C01": ("E1 simbroker/route + route-live", "exploration", "5 C01", "deterministic whole-broker simulation (synctest fake clock, simulated connections/gossip/RPC, seeded scenarios), reference MQTT matcher as oracle; second variant judges publishes issued while subscription gossip is in flight against the LWW fold of what the publishing node has been handed; ddmin replay files",
          "Seeded search over subscribe/unsubscribe/re-subscribe histories and publish bursts on 1-3 simulated nodes with gossip loss/duplication/delay; every (publish, session) pair is judged against an independent MQTT 3.1.1 matcher, so wrong matches, missed '#'/'+' cases, order dependence and pruning errors surface as copy-count mismatches. Sampling with a coverage count, not exhaustive enumeration.",
          "Trusts the harness's own MQTT codec and matcher, the synctest fake clock, the maporder instrumentation (map ranges iterate in simulator order) and the stubs listed in the evidence file; goroutine order inside one step is left to the Go runtime (canonical determinism, see DESIGN 2.1)."),
- "C02": ("E1 simbroker/pipeline", "exploration", "5 C02", "deterministic whole-broker simulation with pre-filled real commit log on tmpfs, seeded publish sequences crossing segment and truncation boundaries, at-least-once oracle over acknowledged publishes",
+ "C02": ("E1 simbroker/pipeline", "exploration", "5 C02", "deterministic whole-broker simulation with pre-filled real commit log on tmpfs, seeded publish sequences crossing segment and truncation boundaries, subscribers that acknowledge at once or only after one or more retransmission deadlines, at-least-once oracle over acknowledged publishes",
          "Every publish the publisher saw acknowledged must reach every subscriber that stayed connected with a matching filter, byte-identical; logs start empty or pre-filled around the batch/segment/truncation boundaries and bursts of up to 2600 publishes cross them inside the run.",
          "Fault-free network; real vx-labs/commitlog files under the simulated broker; same trusted base as C01."),
  "C04": ("E2 ackq + E3 lockstep (-race)", "exploration", "5 C04", "sequential simulation of the real ack.Queue and both expiration.List implementations under synthetic time against a map model, plus PRNG-scheduled concurrent tasks under the race detector (lockstep engine)",
          "Register/acknowledge/sweep histories with equal, same-second, past and future deadlines and non-monotone sweep times; exactly-once callbacks, isolation between entries and the one-second expiry band are checked after every operation and by a final far-future sweep.",
          "Deadlines and sweep instants are parameters of the real API, so no clock stub is involved; 'honoured to the second' is read as a +-1 s band."),
- "C06": ("E2 idpool + E3 lockstep (-race)", "exploration", "5 C06", "sequential simulation of the real allocator against a set model with a final drain, plus PRNG-scheduled concurrent tasks under the race detector with a porcupine set model (lockstep engine)",
+ "C06": ("E2 idpool + E1 simbroker/ids + E3 lockstep (-race)", "exploration", "5 C06", "sequential simulation of the real allocator against a set model with a final drain; whole-broker simulation in which the identifiers of all exchanges open at the same time on one node must be pairwise distinct (late PUBREC/PUBCOMP, retries); plus PRNG-scheduled concurrent tasks under the race detector with a porcupine set model (lockstep engine)",
          "Allocate/release histories (including releases of free, unknown, out-of-range ids and release-first) on small ranges and on 0..65535; a final drain must hand out exactly the free identifiers once each.",
          "Values outside [min,max] returned by Get are taken as the exhaustion report."),
  "C08": ("E2 repl/converge + E3 lockstep (-race)", "exploration", "5 C08", "sequential multi-replica simulation of the real distributed.State with per-node offset clocks; seeded permutation/duplication/batching of captured broadcasts; reference LWW fold as oracle; plus concurrent delivery of competing updates by PRNG-scheduled tasks under the race detector (lockstep engine)",
          "Updates produced by real mutators on 1-3 origin replicas with clock offsets are delivered to 2-3 fresh replicas under independent plans (permuted, duplicated, batched, via NotifyMsg or MergeRemoteState); all receivers must equal the LWW fold of the update set.",
          "Timestamps are unique across nodes (ties not generated); broadcasts are the real protobuf bytes."),
- "C09": ("E2 repl/bcast", "exploration", "5 C09", "sequential two-replica simulation: every mutator on A followed by draining A's real broadcast queue into B; listing equality and broadcast-key coverage as oracles",
+ "C09": ("E2 repl/bcast + E3 lockstep (-race)", "exploration", "5 C09", "sequential two-replica simulation: mutators on A, A's real broadcast queue drained into B after every operation or after batches of 2-5; listing equality and broadcast-key coverage as oracles; plus concurrent local changes on one node by PRNG-scheduled tasks under the race detector, after which a fresh node fed every queued broadcast must equal the origin (lockstep engine)",
          "After every session/subscription/retained mutator (including bulk DeletePeer/DeleteSession over 0, 1, many entries) B must list exactly what A lists, and the broadcast must name every key whose visible state changed on A.",
-         "Single strictly increasing clock, no loss."),
+         "Single strictly increasing clock, no loss (loss and reordering are C08's and C10's subjects)."),
  "C10": ("E2 repl/pushpull", "exploration", "5 C10", "sequential two-replica simulation with lossy gossip followed by real LocalState/MergeRemoteState exchange; per-replica LWW reference model",
          "Interleaved histories on A and B with each gossip batch delivered or lost, then snapshot A->B, B->A, fresh-B or both; the merged replica must equal the LWW merge of the two reference models (additions and removals), and both directions must yield identical listings.",
          "Clocks synchronised (skew is C08's subject)."),
@@ -54,7 +54,7 @@ m = {
  "engines": [
   {"name": "E1 simbroker", "path": "/verif/h (world_test.go, simconn_test.go, mqttc_test.go, e1_*_test.go)", "serves_properties": ["C01","C02","C03","C05","C07","C11","C12","C13","C14","C16","C17","C18"], "kind_free_text": "whole wasp broker(s) in one testing/synctest bubble: fake clock, simulated client connections, gossip, RPC, fault injection, seeded scenarios, ddmin, JSON replay"},
   {"name": "E2 simcomp", "path": "/verif/h (repl_test.go, comp_test.go, logcrash_test.go)", "serves_properties": ["C04","C06","C08","C09","C10","C15","C19"], "kind_free_text": "sequential component simulations of real wasp objects against small reference models"},
-  {"name": "E3 lockstep", "path": "/verif/h (lockstep_*_test.go), /verif/instr", "serves_properties": ["C20","C04","C06","C19"], "kind_free_text": "PRNG-scheduled tasks released one at a time at instrumented yield points, race detector as oracle"},
+  {"name": "E3 lockstep", "path": "/verif/h (lockstep_*_test.go), /verif/instr", "serves_properties": ["C20","C03","C04","C06","C08","C09","C19"], "kind_free_text": "PRNG-scheduled tasks released one at a time at instrumented yield points, race detector as oracle"},
  ],
  "checks": [], "not_applicable": [],
  "notes": "All checks: ./run <ID> quick|thorough; exit 0 held / 1 VIOLATION / 2 harness trouble. Known findings: /verif/KNOWN_FINDINGS.json (open entries print KNOWN-FINDING and are backed by pinned replays under /verif/known/).",
